@@ -114,21 +114,24 @@ def geometry_of(e):
 
 
 def instantiate(struct, rng, runlen=None, lower=0.0):
-    """a random member of the language of a structure pattern (letters, groups, X* runs)"""
+    """a random member of the language of a structure pattern (letters, groups, X* / X+ runs);
+    characters outside the modelled pattern language are skipped"""
     out = []
     i = 0
     while i < len(struct):
         c = struct[i]
-        if c in "()":
+        if c.upper() not in IUPAC:
             i += 1
             continue
         nxt = struct[i + 1] if i + 1 < len(struct) else ""
-        if nxt == "*":
+        if nxt in ("*", "+"):
             k = rng.randint(0, 8) if runlen is None else runlen
-            out.append(rnd(k, rng, IUPAC[c]))
+            if nxt == "+":
+                k = max(k, 1)
+            out.append(rnd(k, rng, IUPAC[c.upper()]))
             i += 3 if struct[i + 2:i + 3] == "?" else 2
         else:
-            out.append(rng.choice(IUPAC[c]))
+            out.append(rng.choice(IUPAC[c.upper()]))
             i += 1
     s = "".join(out)
     if lower:
